@@ -103,6 +103,10 @@ def dfs(run, on_execution, bound=None, max_executions=None, part=None):
     return n, False
 
 
+import re as _re
+_ADDRESS = _re.compile(r" at 0x[0-9a-fA-F]+")
+
+
 def hidden_attrs(obj, skip=()):
     """(name, repr) of every attribute an object keeps in its __dict__ or in slots, except the named ones: for canonical state
     keys, so that state kept beside the documented containers is not merged away."""
@@ -115,7 +119,7 @@ def hidden_attrs(obj, skip=()):
         if n in skip or n in ("__dict__", "__weakref__"):
             continue
         try:
-            out.append((n, repr(getattr(obj, n))))
+            out.append((n, _ADDRESS.sub("", repr(getattr(obj, n)))))  # (memory addresses say nothing about the state and would keep equal states apart)
         except AttributeError:
             out.append((n, "<unset>"))
     return tuple(out)
